@@ -11,6 +11,7 @@ import GormModel.Lemmas.WhereSlices
 import GormModel.Lemmas.WhereRec
 import GormModel.Lemmas.CondValue
 import GormModel.Lemmas.UpdateKeys
+import GormModel.Lemmas.SliceKeys
 namespace Gorm
 
 /-- MAIN (units are indivisible): whatever list of conditions `Where.Build` ends up with — any number of
